@@ -99,7 +99,8 @@ def strategy(tier):
     strs = st.one_of(ints.map(str), ints.map(str), st.sampled_from(ODD_STRINGS),
                      st.text(alphabet="0123456789 +-_.exE²٣", min_size=1, max_size=8),
                      st.text(min_size=0, max_size=6))
-    value = st.one_of(ints.map(lambda v: {"t": "int", "v": str(v)}), strs.map(lambda s: {"t": "str", "v": s}))
+    value = st.one_of(ints.map(lambda v: {"t": "int", "v": str(v)}), strs.map(lambda s: {"t": "str", "v": s}),
+                      st.sampled_from(["10**4300", "-(10**4300)", "2**20000+1"]).map(lambda s: {"t": "bigint", "v": s}))
     one = st.fixed_dictionaries({"kind": st.just("value"), "value": value,
                                  "route": st.sampled_from(["norm", "norm", "lib", "cli", "config"]),
                                  "version": st.sampled_from(["1", "1", "2", "3"])})
@@ -165,6 +166,25 @@ def run_case(case):
     if case["kind"] == "shapes":
         return run_shapes()
     val = case["value"]
+    if val["t"] == "bigint":
+        # an integer with more decimal digits than str()/int() convert by default; none of the samples is a power of two
+        raw = {"10**4300": 10 ** 4300, "-(10**4300)": -(10 ** 4300), "2**20000+1": 2 ** 20000 + 1}[val["v"]]
+        route = "lib" if case["route"] in ("lib", "cli", "config") else "norm"
+        exc = got = None
+        try:
+            if route == "norm":
+                got = utils.normalize_piece_length(raw)
+            else:
+                with sandbox.Scratch("c12b") as scr:
+                    payload = os.path.join(scr, "tiny.bin")
+                    with open(payload, "wb") as fd:
+                        fd.write(b"x" * 40)
+                    creator = {"1": "TorrentFile", "2": "Assembler2", "3": "Assembler3"}[case["version"]]
+                    target.create_lib(creator, payload, os.path.join(scr, "o.torrent"), piece_length=raw)
+                    got = "a metafile"
+        except Exception as e:  # noqa: BLE001
+            exc = e
+        return Outcome(judge(("reject",), got, exc, route, val["v"]), True, ["route-" + route, "type-bigint", "reject"])
     raw = int(val["v"]) if val["t"] == "int" else val["v"]
     exp = expected(raw) if val["t"] == "int" else expected_str(raw)
     route = case["route"]
